@@ -392,7 +392,7 @@ func runC19(r *hk.Run) {
 	}
 	runPostExec(r, e, rng, r.Scale(150, 3000))
 	runH2C(r, e)
-	n := r.Scale(400, 8000)
+	n := r.Scale(320, 8000)
 	for i := 0; i < n; i++ {
 		ln := 25
 		if rng.Chance(30) {
